@@ -299,6 +299,17 @@ def shard(ctx: Ctx, acc: Acc) -> None:
 				if ct is not None:
 					acc.see('layout', 'compact')
 					check_text(acc, {'text': ct, 'features': sorted(g.f) + ['layout:compact']})
+			if i % 5 == 3 and '\t' in text:
+				# the same sentence indented with blanks (another width each time): the one parser of this process reads texts of any unit
+				width = r.choice([1, 2, 3, 4, 8])
+				st = '\n'.join((' ' * width * (len(l) - len(l.lstrip('\t')))) + l.lstrip('\t') for l in text.split('\n'))
+				try:
+					same = ast.dump(ast.parse(st)) == ast.dump(ast.parse(text))
+				except SyntaxError:
+					same = False
+				if same:
+					acc.see('layout', f'indent-{width}-blanks')
+					check_text(acc, {'text': st, 'features': sorted(g.f) + ['layout:blanks']})
 			if i % 4 == 2:
 				at = airy(r, text)
 				if at is not None:
